@@ -68,6 +68,10 @@ CLAIMED = {
     text='Theorems over R: tolerance 180 selects every pair of distinct points (Cauchy-Schwarz + acos x <= pi/2 for x>=0); azimuth and azimuth+180 give the same selection; rotation by any (c,s) with c^2+s^2=1 keeps u.a, u x a and |u|, and rotating the azimuth rotates its direction vector accordingly. Tie: as C12 (same generated definitions) + symmetry runs on the implementation: tolerance 180 vs isotropic variogram, azimuth +-180, rotations by 90/180/-90/atan(3/4), sector tilings of width 90/60/45/30/20.',
     note='PARTIAL: the sector cover/partition clauses are tested, not proved. Known finding F16 (duplicated points: zero-length pairs never selected).',
     technique='Python->Coq translator + real trigonometry/algebra in Coq + symmetry oracle', ref='3 C13'),
+ 'C06': dict(
+    text='State machine with provenance (Model/VarioSM.v): settings, caches stamped with the projection of the settings they were computed from, every setter with exactly the resets the code performs, lazy getters. Theorem (all finite sequences of assignments interleaved with reads, any start configuration, isotropic and directional): the invariant "every cache is empty or stamped with the current settings" is established by every read and preserved by every admissible setter, hence every read equals that of a fresh instance; the one excluded setter (use_nugget while coefficients are cached, finding F5) is proved to be a real counterexample (C06_use_nugget_refuted). Tie: the extracted model predicts, for every read of a history, the current settings and a validity bit; the harness runs the history on a real Variogram / DirectionalVariogram (dense shared MetricSpace, raw coordinates with truncated distances, elongated directional data) and compares with a fresh instance built from the predicted settings; exhaustive single assignments x all reads, ordered pairs, random histories to length 8 (12); failing histories are shrunk.',
+    note='Equal settings give equal numbers only if curve_fit / KMeans are deterministic (trusted). Not modelled: fit_method=\'manual\' (no fresh equivalent without parameters), harmonize, normalize. Findings: F5 known (pinned by the suite); F6, F7, F8, F19, F20, F21, F22 fixed.',
+    technique='Coq proof (invariant over a provenance state machine) + history-based correspondence with shrinking', ref='3 C06'),
 }
 
 PENDING_REASON = 'check not built yet in this round (work in progress; the property is within reach of the technique, see DESIGN.md section 3)'
